@@ -370,7 +370,7 @@ pub fn run(seed: u64, tier: &str, out: &Path, _extra: &[(String, String)]) -> st
         run.push("seq", len > 3, text);
     }
     let mut stuck_cases = 0;
-    for i in 0..(50 * scale) {
+    for i in 0..(120 * scale) {
         if stuck_cases >= 3 { run.note("stress runs stopped: hub calls do not complete".into()); break; }
         let nthreads = 2 + (i % 3) as usize;
         let nops = rng.range(15, 60) as usize;
